@@ -111,7 +111,13 @@ class FlagList(Signature):
         if self.__flags__ is None:  # pragma: no cover
             raise AttributeError("Error: __flags__ not set!")
 
-        self._flags.append(self.__flags__(val))
+        try:
+            self._flags.append(self.__flags__(val))
+
+        except ValueError:
+            # an identifier assigned after this implementation was written, or a private-use one: a preference list is a list of
+            # octets; an entry we do not know is an entry we will not choose, not a reason to refuse the signature (and its key)
+            self._flags.append(val)
 
     @flags.register(bytearray)
     def flags_bytearray(self, val):
